@@ -54,6 +54,10 @@ MC_RenamesXA == { << "x", "a" >>, << "a", "x" >> }
 MC_AsksNames == { << "main", "x" >>, << "main", "a" >> }
 MC_CutsNone == { NoCut }
 
+(* two renderings with DIFFERENT formats, of one holder and of a second holder that shares a series name      *)
+(* (MC_StepStore: x is a series of the main and of the step group)                                            *)
+MC_AsksX == { << "main", "x" >> }
+
 MC_RMain == { "main" }
 MC_RMainStep == { "main", "step" }
 
